@@ -145,7 +145,7 @@ func gen(t *rapid.T) Case {
 		c.Targets = append(c.Targets, tg)
 	}
 	if rapid.IntRange(0, 2).Draw(t, "cfg_passenv") == 0 {
-		c.CfgPassEnv = subset(t, []string{"VA", "VAB", "VB", "LANG", "PYTHONPATH"}, 2, "cfgpass")
+		c.CfgPassEnv = subset(t, []string{"VA", "VAB", "VB", "LANG", "PYTHONPATH", "PATH", "PATH"}, 2, "cfgpass")
 	}
 	if rapid.IntRange(0, 1).Draw(t, "cfg_unsafe") == 0 {
 		c.CfgPassUnsafe = subset(t, []string{"VA_X", "VB", "VX", "PYTHONPATH", "TMPDIR"}, 2, "cfgunsafe")
@@ -520,6 +520,10 @@ func run(c Case, o *lib.Obs) error {
 				got, present := vars[n]
 				switch {
 				case listed(n) && !overridden[n] && !envKeys[n]:
+					if n == "PATH" && present && (got == v || strings.HasSuffix(got, ":"+v)) {
+						// plz documents that it puts its own directory in front of a passed-through PATH
+						continue
+					}
 					if !present || got != v {
 						return lib.Failf("listed-variable-not-passed", "%s: %s lists %s but sees %q (present=%v) instead of the caller's %q", step, l, n, got, present, v)
 					}
